@@ -761,9 +761,13 @@ func (s *state) proofOp(a hx.Args) string {
 	}
 	p := proofs[0]
 	hash := *hdr.BlockHash()
-	if a["form"] == "hash" {
+	switch a["form"] {
+	case "hash":
 		p.BlockHash = &hash
-	} else {
+	case "both":
+		p.BlockHeader = hdr
+		p.BlockHash = &hash
+	default:
 		p.BlockHeader = hdr
 	}
 	mut := a["mut"]
@@ -792,8 +796,17 @@ func (s *state) proofOp(a hx.Args) string {
 		if a["form"] == "hash" {
 			p.BlockHash = &ohash
 		} else {
-			p.BlockHeader = oh
+			p.BlockHeader = oh // with form=both the claimed block hash stays the original one
 		}
+	case strings.HasPrefix(mut, "otherhash:"):
+		// only the claimed block hash names another header; the supplied header is unchanged
+		o, _ := strconv.Atoi(mut[10:])
+		oh, ok := s.hdrs[o]
+		if !ok {
+			return "bad-op"
+		}
+		ohash := *oh.BlockHash()
+		p.BlockHash = &ohash
 	case mut == "unknownhash":
 		u := unknownHash(777777)
 		p.BlockHeader = nil
